@@ -8,14 +8,16 @@ from ..enumcheck import enum_check, enum_replay
 PROP = "C15"
 HARNESS = "c15_ice"
 RULE = ("safety (BFS): two real QXmppIceConnection objects (component 1) on 127.0.0.1 whose datagrams all cross a relay owned by the "
-        "explorer; events: deliver the next honest datagram L->R or R->L, inject a forged STUN datagram at L or R out of 864 variants = "
+        "explorer; events: deliver the next honest datagram L->R or R->L, inject a forged STUN datagram at L or R out of 1440 variants = "
         "{binding request, success response, error response} x {no MESSAGE-INTEGRITY, HMAC under a wrong key, integrity truncated to 10 "
         "bytes, zeroed integrity} x USE-CANDIDATE y/n x username {correct, wrong, absent} x role attribute {controlling, controlled, none} "
-        "x transaction id {fresh, copied from the victim's last request} x source {unknown port, the honest peer's address}; injections "
+        "x transaction id {fresh, copied from the victim's last request} x source {unknown port, the honest peer's address}, plus the "
+        "reserved top bits of the message type set to 1/2/3 for the variants without a valid MAC; injections "
         "happen at every point of the honest exchange (<= 1 per history quick, <= 2 thorough); oracle: the victim's and the peer's "
         "observable state (connected flag, connected() count, pair selections, delivered datagrams) is unchanged by an injection and the "
         "victim emits no datagram because of it (an error response to the attacker would be tolerated); control: the same messages with "
-        "valid integrity do have an effect. liveness (enumeration): role assignment x every subset of the first four transmissions "
+        "valid integrity do have an effect. A second configuration injects every variant (and, thorough, every pair) into agents that have "
+        "gathered candidates but not yet received the peer's credentials (pre-answer). liveness (enumeration): role assignment x every subset of the first four transmissions "
         "lost (quick: <= 2 losses) -> both agents connect, host candidates carry the RFC 5245 priority, five payload kinds incl. a "
         "STUN-looking one travel unchanged both ways.")
 ASSUME = ["one host candidate pair on loopback; STUN/TURN servers are not configured",
@@ -29,25 +31,31 @@ def run(tier):
     bdir = C.build([HARNESS])
     binary = os.path.join(bdir, HARNESS)
     dev = 2 if tier == "thorough" else 1
-    r = explore.bfs(binary, {"lControlling": True}, 5, dev, 900 if tier == "thorough" else 300)
     findings = []
-    for k, v in sorted(r["violations"].items()):
-        pool = explore.Pool(binary, 1)
-        try:
-            ok = 0
-            for _ in range(2):
-                rep = pool.one({"op": "run", "config": {"lControlling": True}, "history": v["history"]}, timeout=120)
-                if any(x.get("key") == k for x in rep.get("violations") or []):
-                    ok += 1
-        finally:
-            pool.close()
-        if ok != 2:
-            raise C.InternalError("violation %s did not reproduce (%d/2)" % (k, ok))
-        path = C.write_replay(PROP, HARNESS, k, v.get("msg", ""), {"config": {"lControlling": True}, "history": v["history"], "names": v.get("names", [])})
-        findings.append(dict(key=k, msg=v.get("msg", "") + " | history: " + " ; ".join(v.get("names", [])), replay=path))
+    runs = []
+    for cfg, depth in (({"lControlling": True}, 5), ({"lControlling": True, "preAnswer": True}, 2)):
+        r = explore.bfs(binary, cfg, depth, dev, 900 if tier == "thorough" else 300)
+        runs.append((cfg, r))
+        for k, v in sorted(r["violations"].items()):
+            pool = explore.Pool(binary, 1)
+            try:
+                ok = 0
+                for _ in range(2):
+                    rep = pool.one({"op": "run", "config": cfg, "history": v["history"]}, timeout=120)
+                    if any(x.get("key") == k for x in rep.get("violations") or []):
+                        ok += 1
+            finally:
+                pool.close()
+            if ok != 2:
+                raise C.InternalError("violation %s did not reproduce (%d/2)" % (k, ok))
+            path = C.write_replay(PROP, HARNESS, k, v.get("msg", ""), {"config": cfg, "history": v["history"], "names": v.get("names", [])})
+            findings.append(dict(key=k, msg=v.get("msg", "") + " | history: " + " ; ".join(v.get("names", [])), replay=path))
+    r, pre = runs[0][1], runs[1][1]
     for w in ("forged_injected", "valid_integrity_has_effect", "both_connected"):
         if r["witness"].get(w, 0) <= 0:
             raise C.InternalError("witness '%s' is zero" % w)
+    if pre["witness"].get("pre_answer_injections", 0) <= 0:
+        raise C.InternalError("witness 'pre_answer_injections' is zero")
     # liveness enumeration (sharded)
     res = C.run_sharded(binary, ["--tier", tier])
     for shard, rc, err in res["crashed"]:
@@ -66,10 +74,11 @@ def run(tier):
     if res["counters"].get("connected_runs", 0) <= 0 or res["counters"].get("payloads_carried", 0) <= 0:
         raise C.InternalError("liveness part vacuous")
     cov = {
-        "states": r["states"], "transitions": r["transitions"], "traces_validated_against_impl": r["executions"] + res["evaluations"],
+        "states": r["states"] + pre["states"], "transitions": r["transitions"] + pre["transitions"], "traces_validated_against_impl": r["executions"] + pre["executions"] + res["evaluations"],
         "samples": (r["samples"][:3] + res["samples"][:2]) or [{"note": "none"}],
-        "evaluations": r["executions"] + res["evaluations"], "distinct_nontrivial": r["states"] + res["nontrivial"], "rule": RULE,
-        "exhaustive": r["exhaustive"] and not res["timed_out"],
+        "evaluations": r["executions"] + pre["executions"] + res["evaluations"], "distinct_nontrivial": r["states"] + pre["states"] + res["nontrivial"], "rule": RULE,
+        "exhaustive": r["exhaustive"] and pre["exhaustive"] and not res["timed_out"],
+        "safety_pre_answer": dict(completed_depth=pre["completed_depth"], max_deviations=dev, events=pre["events"], witness=pre["witness"], transitions=pre["transitions"]),
         "safety": dict(completed_depth=r["completed_depth"], max_deviations=dev, events=r["events"], witness=r["witness"], outcomes=len(r["outcomes"]),
                        depth_stats=r["depth_stats"], rechecks=r["rechecks"]),
         "liveness": dict(evaluations=res["evaluations"], counters=res["counters"], distinct_outcomes=len(res["outcomes"])),
